@@ -264,9 +264,9 @@ def gen_header(ctx, ver, fmt64, little, addr, shape, nm='h', strtabs=None):
             fmt = shape.get(fmt_key, [])
             body += [len(fmt)]
             for ct, form in fmt:
-                body += enc.uleb_enc(LNCT[ct], 1) + enc.uleb_enc(FORMS[form], 1 if FORMS[form] < 0x80 else 2)
+                body += enc.uleb_enc(LNCT[ct], shape.get('ctleb', 1)) + enc.uleb_enc(FORMS[form], 1 if FORMS[form] < 0x80 else 2)
             cnt = shape.get(cnt_key, 0)
-            body += enc.uleb_enc(cnt, 1)
+            body += enc.uleb_enc(cnt, shape.get('cntleb', 1))       # the counts are ULEB128: a padded encoding is as valid as the minimal one
             ents = []
             for i in range(cnt):
                 e = {}
@@ -546,6 +546,8 @@ def _header_instances(tier):
             dict(opcode_base=13, dir_format=[('path', 'string')], ndirs=1, file_format=[('path', 'string'), ('size', 'udata'), ('directory_index', 'udata')], nfiles=2),
             dict(opcode_base=13, dir_format=[('path', 'string')], ndirs=1, file_format=[('path', 'string'), ('timestamp', 'udata'), ('size', 'udata')], nfiles=1),
         ]
+        v5 += [dict(opcode_base=13, dir_format=[('path', 'string')], ndirs=2, file_format=[('path', 'string'), ('directory_index', 'udata')], nfiles=1, cntleb=2),
+               dict(opcode_base=13, dir_format=[('path', 'line_strp')], ndirs=1, file_format=[('path', 'line_strp'), ('directory_index', 'data1')], nfiles=2, cntleb=3, ctleb=2)]
         for shape in v5:
             out.append(dict(ver=5, fmt64=fmt64, little=little, addr=addr, shape=shape, pad=0))
     return out
